@@ -166,6 +166,35 @@ theorem extNoPanic_composed : Cfg.ExtNoPanic (composedExt : Cfg.Ext ℝ) where
   idler := fun s p c pp => np_map _ (np_optimumIdlerB _ _ _ _)
   waistPos := fun _ _ _ => rfl
 
+/-! ### costs over ℝ are finite values -/
+
+theorem toCost_eq_fin (x : ℝ) : Beam.toCost x = NM1D.Cost.fin x := by
+  unfold Beam.toCost Index.isFinite
+  simp [lit_zero]
+
+/-- the cost of `optimum_theta` is a real number when `λp < λs` -/
+theorem thetaCost_fin (S : Setup ℝ) (s p : Beam.Beam ℝ) (θe θ : ℝ)
+    (h : Beam.vacuumWavelength p < Beam.vacuumWavelength s) : ∃ v, thetaCost S s p θe θ = NM1D.Cost.fin v := by
+  unfold thetaCost
+  obtain ⟨t, ht⟩ := setThetaExternalB_ok { S with cTheta := θ } s θe
+  have h' : Beam.vacuumWavelength p < Beam.vacuumWavelength (Beam.setAngles s s.phi t) := h
+  obtain ⟨z, hz⟩ := dkzOptimum_ok { S with cTheta := θ } (Beam.setAngles s s.phi t) p .off 0 kEff_off_ok h'
+  exact ⟨Transc.abs z, by simp only [ht, Outcome.bind, hz, Outcome.map, costOf, toCost_eq_fin]⟩
+
+/-- unfolding `optimumPolingPeriodB` on `ok` -/
+theorem optimumPolingPeriodB_ok {S : Setup ℝ} {s p : Beam.Beam ℝ} {v : ℝ}
+    (h : optimumPolingPeriodB S s p = .ok v) :
+    ∃ z r, dkzOptimum S s p .off = .ok z ∧
+      Auto.optimumPolingPeriod z
+        (fun neg per => costOf ((dkzOptimum S s p (.on per neg)).map Transc.abs)) S.L = .ok r ∧
+      v = periodValue r := by
+  unfold optimumPolingPeriodB at h
+  rw [bind_eq_ok] at h
+  obtain ⟨z, hz, h⟩ := h
+  rw [map_eq_ok] at h
+  obtain ⟨r, hr, rfl⟩ := h
+  exact ⟨z, r, hz, hr, rfl⟩
+
 /-! ### `asOptimum` is idempotent -/
 
 /-- the fields the beam-level routines read -/
